@@ -284,7 +284,18 @@ def r3_one_outstanding(ctx, F):
                 v = b.val(st['rv']['op']) if st['rv']['k'] == 'use' else None
                 if v is not None and v.kind == 'agg' and v.key[2] == 'Owned' and v.key[3] and \
                         v.key[3][0].kind == 'agg' and v.key[3][0].key[1] == state_adt and v.key[3][0].key[2] == 'Client':
-                    stores.append((i, v.key[3][0]))
+                    stores.append((i, v.key[3][0], st))
+            aw_idx = None
+            for var in F.adt(state_adt)['variants']:
+                if var['name'] == 'Client':
+                    for fi, fld in enumerate(var['fields']):
+                        if fld['name'] == 'awaiting':
+                            aw_idx = fi
+            if aw_idx is None:
+                raise AnchorMissing('%s: Client.awaiting field' % state_adt)
+            from taint import origin_vals
+            stores_st = dict((i, st_) for (i, a, st_) in stores)
+            stores = [(i, a) for (i, a, st_) in stores]
             for s_ in sends:
                 role = 'send@%s' % s_.span.split(':')[-1]
                 te = []
@@ -305,16 +316,17 @@ def r3_one_outstanding(ctx, F):
                           bad='%s can return after sending a request without updating `awaiting`' % path,
                           span=s_.span)
                 # the stored awaiting is Some(id that was sent)
-                mv = b.val(s_.args[2])
-                sent_id = noref(mv.key[3][0]) if mv.kind == 'agg' and mv.key[3] else None
+                # (compared as sets of def-use values: the message and the new state may both be
+                # taken out of a tuple that a helper returned)
+                sent_id = origin_vals(b, s_.args[2], extra=[{'downcast': '*'}, {'f': 0}])
                 after = b.reach([s_.target])
                 okid = False
                 for (i, a) in stores:
-                    if i in after:
-                        names = None
-                        aw = a.key[3][0] if a.key[3] else None
-                        if aw is not None and aw.kind == 'agg' and aw.key[2] == 'Some' and aw.key[3] and \
-                                noref(aw.key[3][0]) == sent_id:
+                    if i in after and stores_st[i]['rv']['k'] == 'use':
+                        kept = origin_vals(b, stores_st[i]['rv']['op'],
+                                           extra=[{'downcast': 'Owned'}, {'f': 0}, {'downcast': 'Client'}, {'f': aw_idx},
+                                                  {'downcast': 'Some'}, {'f': 0}])
+                        if sent_id and kept == sent_id:
                             okid = True
                 ctx.check(okid, rule, 'awaiting-is-sent-id:' + role, b,
                           good='`awaiting` becomes Some(request id just sent)',
